@@ -123,7 +123,7 @@ def _one_compare(ctx, t, kind, an, bn, same_object=False):
     try:
         outcome = bool(PYOPS[kind](a1, b1))
         pyexc = None
-    except Exception as e:  # noqa: BLE001
+    except (Exception, V.Cancelled) as e:  # noqa: BLE001
         outcome, pyexc = None, type(e).__name__
     a2, b2 = V.fresh(an), V.fresh(bn)
     if same_object:
@@ -140,7 +140,7 @@ def _one_compare(ctx, t, kind, an, bn, same_object=False):
     try:
         t.executed_compare_predicate(a2, b2, 0, getattr(PynguinCompare, kind))
         texc = None
-    except Exception as e:  # noqa: BLE001
+    except (Exception, V.Cancelled) as e:  # noqa: BLE001
         texc = type(e).__name__
         tmsg = str(e)[:80]
     classes = [f"kind:{kind}"]
@@ -167,7 +167,7 @@ def _one_bool(ctx, t, an):
     v1 = V.fresh(an)
     try:
         outcome, pyexc = bool(v1), None
-    except Exception as e:  # noqa: BLE001
+    except (Exception, V.Cancelled) as e:  # noqa: BLE001
         outcome, pyexc = None, type(e).__name__
     v2 = V.fresh(an)
     t.init_trace()
@@ -176,7 +176,7 @@ def _one_bool(ctx, t, an):
     try:
         t.executed_bool_predicate(v2, 0)
         texc = None
-    except Exception as e:  # noqa: BLE001
+    except (Exception, V.Cancelled) as e:  # noqa: BLE001
         texc = type(e).__name__
     ctx.ok(cls="kind:BOOL", distinct=f"BOOL|{an}" if pyexc is None else None)
     if pyexc is not None:
@@ -227,7 +227,7 @@ def _one_exc(ctx, t, en, ef, tn, target):
     ctx.ok(cls="kind:EXC", distinct=f"EXC|{en}|{tn}")
     try:
         t.executed_exception_match(ef(), target, 0)
-    except Exception as e:  # noqa: BLE001
+    except (Exception, V.Cancelled) as e:  # noqa: BLE001
         ctx.witness(f"excmatch:raises-{type(e).__name__}:{'tuple-target' if isinstance(target, tuple) else 'type-target'}",
                     f"except {tn} on {en}: python matches={outcome}, tracer raised {e!r}", case)
         return
@@ -236,7 +236,7 @@ def _one_exc(ctx, t, en, ef, tn, target):
 
 def run_chunk(spec, ctx):
     t = _tracer()
-    names = [n for n, _, _ in V.VALUES]
+    names = [n for n, _, _ in V.VALUES + V.EXTRA_VALUES]
     if spec["name"] == "cross":
         for kind in PYOPS:
             for an, bn in itertools.product(names, names):
@@ -282,7 +282,7 @@ def run_chunk(spec, ctx):
                 b = rng.choice([[b], (a, b), {1, 2}, "abA", b"ab", {a: 1} if isinstance(a, (int, str, float, bytes, tuple, bool, type(None))) else [a], b])
             try:
                 outcome, pyexc = bool(PYOPS[kind](a, b)), None
-            except Exception as e:  # noqa: BLE001
+            except (Exception, V.Cancelled) as e:  # noqa: BLE001
                 outcome, pyexc = None, type(e).__name__
             ctx.ok(cls=f"random:{kind}", distinct=f"{kind}|{a!r}|{b!r}" if pyexc is None else None)
             if pyexc:
@@ -303,7 +303,7 @@ def run_chunk(spec, ctx):
             mech = _mech(kind, cl(a), cl(b), a, b)
             try:
                 t.executed_compare_predicate(a, b, 0, getattr(PynguinCompare, kind))
-            except Exception as e:  # noqa: BLE001
+            except (Exception, V.Cancelled) as e:  # noqa: BLE001
                 ctx.witness(f"{GROUP[kind]}:raises-{type(e).__name__}:{mech}", f"{kind}({a!r},{b!r}) python={outcome} tracer raised {e!r}", case)
                 continue
             _check_dists(ctx, t, GROUP[kind], kind, outcome, mech, case)
